@@ -80,6 +80,8 @@ def run(ctx) -> None:
     # is C09's subject; its scope/selection rules are a precondition here (a failed listing must not read as 'no tags',
     # the default-scope comparison and the newest-tag selection are made under parse_version)
     run_prerequisite(ctx, "C09", ("R1", "R2"), "R6")
+    ctx.rule("R7", "prerequisite: 'in every other case no project file is changed' - no file is written before every configured file was validated (C06/R1)")
+    run_prerequisite(ctx, "C06", ("R1",), "R7")
     gate = prog.function(GATE)
     n_gate = n_ann = n_eff = 0
     for root in ROOTS:
